@@ -294,7 +294,7 @@ func checkMatrix(r *ev.Run, l libMat, a mat) {
 	if scale == 0 {
 		return
 	}
-	if math.Abs(l.det(m)-det) > 1e-9*math.Pow(scale, float64(l.n)) {
+	if !(math.Abs(l.det(m)-det) <= 1e-9*math.Pow(scale, float64(l.n))) {
 		viol("Det", fmt.Sprintf("Det()=%g, cofactor expansion %g", l.det(m), det))
 	}
 	// transpose and product
@@ -371,12 +371,12 @@ func checkMatrix(r *ev.Run, l libMat, a mat) {
 		}
 		for i := 0; i < l.n; i++ {
 			for j := 0; j < l.n; j++ {
-				if i != j && math.Abs(s[i][j]) > 1e-9*scale {
+				if i != j && !(math.Abs(s[i][j]) <= 1e-9*scale) {
 					viol("SVD/diagonal", "S is not diagonal")
 				}
 			}
 			// compared as a multiset: the property asks for reconstruction, not for an order
-			if math.Abs(sortedDesc(diag(s))[i]-sv[i]) > 1e-7*scale*sv[0]/sv[len(sv)-1] {
+			if !(math.Abs(sortedDesc(diag(s))[i]-sv[i]) <= 1e-7*scale*sv[0]/sv[len(sv)-1]) {
 				viol("SVD/values", fmt.Sprintf("singular values %v on the diagonal of S, reference (sorted) %v", diag(s), sv))
 				break
 			}
@@ -533,7 +533,7 @@ func matrixStage(r *ev.Run, full bool) {
 		p := ls[4].build(a).(*numerical.Matrix4).CharPoly()
 		for _, x := range []float64{-2, -0.5, 0, 1, 3} {
 			want := cdet(a, complex(x, 0))
-			if math.Abs(p.Eval(x)-real(want)) > 1e-9*(1+math.Abs(real(want))) {
+			if !(math.Abs(p.Eval(x)-real(want)) <= 1e-9*(1+math.Abs(real(want)))) {
 				r.Violation("numerical.Matrix4/CharPoly", fmt.Sprintf("matrix %v: CharPoly(%g)=%g, det(M - x I)=%g", a, x, p.Eval(x), real(want)), mcase{Kernel: "Matrix4.CharPoly", Matrix: a})
 				break
 			}
@@ -572,21 +572,21 @@ func rotationStage(r *ev.Run) {
 					if d := m.t().mul(m).maxDiff(ident(3)); d > 1e-9 {
 						viol(fmt.Sprintf("R^T R differs from the identity by %g", d))
 					}
-					if math.Abs(m.det()-1) > 1e-9 {
+					if !(math.Abs(m.det()-1) <= 1e-9) {
 						viol(fmt.Sprintf("determinant %g", m.det()))
 					}
 					av := m.mul(mat{{u.X}, {u.Y}, {u.Z}})
 					if math.Abs(av[0][0]-u.X)+math.Abs(av[1][0]-u.Y)+math.Abs(av[2][0]-u.Z) > 1e-9 {
 						viol("the axis is not fixed")
 					}
-					if tr := m[0][0] + m[1][1] + m[2][2]; math.Abs(tr-(1+2*math.Cos(th))) > 1e-9 {
+					if tr := m[0][0] + m[1][1] + m[2][2]; !(math.Abs(tr-(1+2*math.Cos(th))) <= 1e-9) {
 						viol(fmt.Sprintf("trace %g, want 1+2cos = %g", tr, 1+2*math.Cos(th)))
 					}
 					// right-handed: (v x Rv) . axis = sin(theta) for unit v perpendicular to the axis
 					p, _ := u.OrthoBasis()
 					rv := m.mul(mat{{p.X}, {p.Y}, {p.Z}})
 					rvc := model3d.XYZ(rv[0][0], rv[1][0], rv[2][0])
-					if s := p.Cross(rvc).Dot(u); math.Abs(s-math.Sin(th)) > 1e-9 {
+					if s := p.Cross(rvc).Dot(u); !(math.Abs(s-math.Sin(th)) <= 1e-9) {
 						viol(fmt.Sprintf("rotates by sine %g around the axis, want sin(theta) = %g (handedness)", s, math.Sin(th)))
 					}
 				}
@@ -707,7 +707,7 @@ func solverStage(r *ev.Run, full bool) {
 					x := ch.ApplyInverseVec3(b)
 					ax := sm.ApplyVec3(x)
 					for i := range ax {
-						if ax[i].Dist(b[i]) > 1e-9 {
+						if !(ax[i].Dist(b[i]) <= 1e-9) {
 							r.Violation("SparseCholesky/ApplyInverse", fmt.Sprintf("graph mask %b on %d nodes (reversed=%v), rhs e%d: A x differs from b by %g", mask, n, rev, bi, ax[i].Dist(b[i])), c)
 							break
 						}
@@ -715,7 +715,7 @@ func solverStage(r *ev.Run, full bool) {
 					y := ch.ApplyVec3(b)
 					yy := sm.ApplyVec3(b)
 					for i := range y {
-						if y[i].Dist(yy[i]) > 1e-9 {
+						if !(y[i].Dist(yy[i]) <= 1e-9) {
 							r.Violation("SparseCholesky/Apply", fmt.Sprintf("graph mask %b on %d nodes: L L^T b differs from A b", mask, n), c)
 							break
 						}
